@@ -58,7 +58,8 @@ SigStates  == {"Stable", "HaveLocalOffer", "HaveRemoteOffer", "Closed"}
 Reasons    == {"None", "LocalClose", "Dropped", "IceFailed", "IceDisconnected", "DtlsFailed", "DtlsClosed",
                "SctpRemoteAbort", "SctpRemoteShutdown", "SctpHeartbeatTimeout", "TransportStartFailed",
                "Unknown"}
-IceStates  == {"New", "Checking", "Connected", "Disconnected", "Failed", "Closed"}
+IceStates  == {"New", "Checking", "Connected", "Completed", "Disconnected", "Failed", "Closed"}
+IceUp      == {"Connected", "Completed"}
 Events     == {"Close", "Drop", "PeerCloseNotify", "PeerSctpAbort", "PeerSctpShutdown", "IceStop",
                "SocketLoss", "BlockedSender"}
 Phases     == {"created", "offerMade", "gathering", "checking", "iceConnected", "dtlsHandshaking",
@@ -343,7 +344,7 @@ L_Top ==
     /\ lp = "top" /\ ~dropped
     /\ seenL' = iceT
     /\ lp' = CASE iceT = "Checking"  -> "sawChecking"
-               [] iceT = "Connected" -> "sawConn"
+               [] iceT \in IceUp    -> "sawConn"
                [] iceT = "Failed"    -> "pre:iceloop.ice_failed"
                [] iceT = "Closed"    -> "pre:iceloop.ice_closed"
                [] OTHER              -> "wait"
@@ -531,7 +532,7 @@ C_RunIce ==
               cp' = "retTrue" /\ UNCHANGED <<cval, cnext, grace>>
          [] iceT = "Disconnected" ->
               cp' = "pre:conn.ice_disc" /\ cval' = "Disconnected" /\ cnext' = "run" /\ grace' = TRUE
-         [] iceT = "Connected" ->
+         [] iceT \in IceUp ->
               cp' = "pre:conn.ice_rec" /\ cval' = "Connected" /\ cnext' = "run" /\ grace' = FALSE
          [] OTHER -> UNCHANGED <<cp, cval, cnext, grace>>
     /\ UNCHANGED <<reason, seenD>>
@@ -652,6 +653,21 @@ S_Abort ==
     /\ SExit("REMOTE_ABORT")
     /\ UNCHANGED <<sctp, spermit, opened, shutdownIn>> /\ UNCHANGED SUnch
 
+\* the DTLS runner has ended: the channel that feeds the association is closed ("INCOMING_CHANNEL_CLOSED")
+S_InputClosed ==
+    /\ SPolled /\ srun = "assoc" /\ dtask = "done"
+    /\ srun' = "exited"
+    /\ SExit("INCOMING_CHANNEL_CLOSED")
+    /\ UNCHANGED <<sctp, spermit, opened, abortIn, shutdownIn>> /\ UNCHANGED SUnch
+
+\* the peer acknowledged a SHUTDOWN this endpoint sent ("REMOTE_SHUTDOWN")
+S_ShutdownAck ==
+    /\ SPolled /\ srun = "assoc" /\ shutdownIn /\ dtls = "Connected" /\ sock
+    /\ shutdownIn' = FALSE
+    /\ srun' = "exited"
+    /\ SExit("REMOTE_SHUTDOWN")
+    /\ UNCHANGED <<sctp, spermit, opened, abortIn>> /\ UNCHANGED SUnch
+
 \* the peer shut the association down and stopped answering: heartbeats run out
 S_PeerSilent ==
     /\ SPolled /\ srun = "assoc" /\ ~peerAlive
@@ -678,8 +694,14 @@ I_Connect ==
     /\ iceT' = "Connected" /\ sock' = TRUE
     /\ UNCHANGED peerAlive /\ UNCHANGED EUnch
 
+\* the controlled agent moves on to Completed once the nominated pair is confirmed
+I_Complete ==
+    /\ Answerer /\ iceT = "Connected" /\ peerAlive /\ ~IsDirect
+    /\ iceT' = "Completed"
+    /\ UNCHANGED <<sock, peerAlive>> /\ UNCHANGED EUnch
+
 I_Disconnect ==
-    /\ iceT = "Connected" /\ ~peerAlive /\ ~IsDirect
+    /\ iceT \in IceUp /\ ~peerAlive /\ ~IsDirect
     /\ iceT' = "Disconnected"
     /\ UNCHANGED <<sock, peerAlive>> /\ UNCHANGED EUnch
 
@@ -728,7 +750,7 @@ Applicable(e) ==
       [] e = "PeerCloseNotify"  -> ~IsDirect /\ dtls = "Connected" /\ peerAlive
       [] e = "PeerSctpAbort"    -> Dc /\ sctp = "Established" /\ peerAlive
       [] e = "PeerSctpShutdown" -> Dc /\ sctp = "Established" /\ peerAlive
-      [] e = "SocketLoss"       -> ~IsDirect /\ peerAlive /\ iceT \in {"Checking", "Connected"}
+      [] e = "SocketLoss"       -> ~IsDirect /\ peerAlive /\ iceT \in {"Checking", "Connected", "Completed"}
       [] e = "BlockedSender"    -> Dc /\ chan = "open" /\ peerAlive /\ handles > 0 /\ (\E k \in {1, 2} : cl[k] \in {"idle", "done"})
       [] OTHER                  -> FALSE
 
@@ -798,8 +820,9 @@ Next ==
     \/ C_Role \/ C_Start \/ C_SrtpAbort \/ C_HsEnter \/ C_Hs \/ C_HsConn \/ C_DirectSpawn \/ C_Spawned \/ C_Publish \/ C_Run
     \/ D_Connect \/ D_Close \/ D_SockGone \/ D_PeerAlert \/ D_Timeout
     \/ S_Start \/ S_DtlsUp \/ S_Established \/ S_ChanOpen \/ S_Closed \/ S_DtlsGone \/ S_Abort \/ S_PeerSilent
+    \/ S_InputClosed
     \/ T_DirectEnd
-    \/ I_Connect \/ I_Disconnect \/ I_Fail
+    \/ I_Connect \/ I_Complete \/ I_Disconnect \/ I_Fail
     \/ R_WaitConnected \/ R_SendCheck \/ R_SendPark
     \/ (\E e \in Events : Fire(e)) \/ A_CallWfc
 
@@ -808,9 +831,10 @@ Fairness ==
     /\ WF_vars(L_Top \/ L_SawChecking \/ L_Wait \/ L_EnterConn \/ L_PubFailed \/ L_PubClosed \/ L_ConnReturn)
     /\ WF_vars(C_Role \/ C_Start \/ C_SrtpAbort \/ C_HsEnter \/ C_Hs \/ C_HsConn \/ C_DirectSpawn \/ C_Spawned \/ C_Publish \/ C_Run)
     /\ WF_vars(D_Connect \/ D_Close \/ D_SockGone \/ D_PeerAlert \/ D_Timeout)
-    /\ WF_vars(S_Start \/ S_DtlsUp \/ S_Established \/ S_ChanOpen \/ S_Closed \/ S_DtlsGone \/ S_Abort \/ S_PeerSilent)
+    /\ WF_vars(S_Start \/ S_DtlsUp \/ S_Established \/ S_ChanOpen \/ S_Closed \/ S_DtlsGone \/ S_Abort \/ S_PeerSilent
+               \/ S_InputClosed)
     /\ WF_vars(T_DirectEnd)
-    /\ WF_vars(I_Connect \/ I_Disconnect \/ I_Fail)
+    /\ WF_vars(I_Connect \/ I_Complete \/ I_Disconnect \/ I_Fail)
     /\ WF_vars(\E k \in 1..3 : A_Close1(k) \/ A_Close2(k) \/ A_Close3(k) \/ A_Close4(k) \/ A_Close5(k))
     /\ WF_vars(InnerDrop \/ AbortTracked)
     /\ WF_vars(R_WaitConnected)
